@@ -237,10 +237,11 @@ class ImplStore:
             return dnp.phase(d, kw["dim"], p0, p1)
         if f == "phase_cycle":
             return dnp.phase_cycle(d, kw["dim"], list(kw["rp"]))
-        if f == "fourier_transform":
-            return dnp.fourier_transform(d, kw["dim"], kw["zff"], bool(kw.get("shift")), bool(kw.get("convert")))
-        if f == "inverse_fourier_transform":
-            return dnp.inverse_fourier_transform(d, kw["dim"], kw["zff"], bool(kw.get("shift")), bool(kw.get("convert")))
+        if f in ("fourier_transform", "inverse_fourier_transform"):
+            # a flag is a truth value: a caller may hand over the builtin, the result of a NumPy comparison, or 0/1
+            flag = {"np": np.bool_, "int": int}.get(kw.get("flag_style"), bool)
+            fn = dnp.fourier_transform if f == "fourier_transform" else dnp.inverse_fourier_transform
+            return fn(d, kw["dim"], kw["zff"], flag(bool(kw.get("shift"))), flag(bool(kw.get("convert"))))
         if f == "ndalign":
             return dnp.ndalign(d, kw["dim"])
         if f == "trace_local":
